@@ -5,7 +5,7 @@
    under parents as far as the parents can still arrive. *)
 From BV Require Import Base.Prelude Model.Block Model.ForkDB Model.Forkable Spec.Consumer Spec.Universe
   Proofs.Fk.StoreFacts Proofs.Fk.WalkFacts Proofs.Fk.LoopFacts Proofs.Fk.StoreChange Proofs.Fk.SwitchFacts
-  Proofs.Fk.FixedLib Proofs.Fk.MovingLibStore Proofs.Fk.MovingLibWalk Proofs.Fk.MovingLibLoops.
+  Proofs.Fk.FixedLib Proofs.Fk.RootsBase Proofs.Fk.MovingLibStore Proofs.Fk.MovingLibWalk Proofs.Fk.MovingLibLoops.
 Local Open Scope N_scope.
 
 Lemma last_indep {A} (l : list A) d d' : l <> [] -> last l d = last l d'.
@@ -43,7 +43,8 @@ Section MovingLib.
   Hypothesis Hnew : f_new (c_filter cfg) = true.
   Hypothesis Hundo : f_undo (c_filter cfg) = true.
 
-  Hypothesis U_id : forall b, In b U -> bid b <> 0 /\ bparent b <> 0 /\ bid b <> bparent b.
+  (* parent ids MAY be empty (roots) *)
+  Hypothesis U_id : forall b, In b U -> bid b <> 0 /\ bid b <> bparent b.
   Hypothesis U_uniq : forall x y, In x U -> In y U -> bid x = bid y -> x = y.
   Hypothesis U_up : forall x y, In x U -> In y U -> bparent x = bid y -> bnum y < bnum x.
   Hypothesis L_id : ri r0 <> 0.
@@ -119,7 +120,10 @@ Section MovingLib.
     di_coh : lib_coh (libref d);
     di_num : num_of d (ri (libref d)) = Some (rn (libref d));
     di_extra : extra d = None \/ extra d = Some (libref d);
-    di_lc : lc d
+    di_lc : lc d;
+    (* a root (empty parent id) is never sent from the forkdb: its stored entry stays unsent, so that
+       storing it again (AddLink does not recognise it) changes nothing *)
+    di_root : forall e, In e (store d) -> bparent (eb e) = 0 -> esent e = false
   }.
 
   Lemma di_wf d : DbInv d -> wf_store (store d).
@@ -222,7 +226,7 @@ Section MovingLib.
     intros [-> | ->]; (constructor; cbn;
      [ constructor; cbn;
        [ constructor | intros e [] | apply lib_coh_r0
-       | unfold num_of; cbn; rewrite N.eqb_refl; reflexivity | right; reflexivity | intros e [] ]
+       | unfold num_of; cbn; rewrite N.eqb_refl; reflexivity | right; reflexivity | intros e [] | intros e [] ]
      | constructor | reflexivity
      | split; [reflexivity|]; split; [reflexivity|]; split; [intros e [] | reflexivity] ]).
   Qed.
@@ -262,7 +266,7 @@ Section MovingLib.
           else process_tail cfg s1 b undos redos junc longest None
       end.
   Proof.
-    intros Hd Hb Hf Hdr Hni Hsw. destruct (U_id b Hb) as (H1 & H2 & H3).
+    intros Hd Hb Hf Hdr Hni Hsw. destruct (U_id b Hb) as (H1 & H3).
     unfold fk_step. destruct (N.eqb_spec (bid b) (bparent b)); [contradiction|].
     unfold dropped in Hdr. unfold incl_first in Hni. rewrite Hdr, Hni.
     unfold sw_of in Hsw. rewrite Hsw.
@@ -337,7 +341,7 @@ Section MovingLib.
 
   Lemma dbinv_add d b : DbInv d -> In b U -> find (bid b) (store d) = None -> DbInv (new_db d b).
   Proof.
-    intros [Hnd HU Hcoh Hnum Hex Hlc] Hb Hf.
+    intros [Hnd HU Hcoh Hnum Hex Hlc Hrt] Hb Hf.
     assert (Hk : ~ In (bid b) (keys (store d))) by (apply find_none; exact Hf).
     constructor; cbn [new_db store extra libref].
     - rewrite keys_snoc. apply nodup_snoc; [exact Hnd | exact Hk].
@@ -351,6 +355,7 @@ Section MovingLib.
     - intros e He Hs. apply in_app_or in He as [He|[<-|[]]]; [|discriminate].
       destruct (Hlc e He Hs) as [(p & Hp & Hps)|H]; [left | right; exact H].
       exists p. split; [apply find_snoc_old; exact Hp | exact Hps].
+    - intros e He Hp. apply in_app_or in He as [He|[<-|[]]]; [apply Hrt; assumption | reflexivity].
   Qed.
 
   Lemma inv_add s Fin S b : Inv s Fin S -> In b U -> find (bid b) (store (db s)) = None ->
@@ -421,7 +426,7 @@ Section MovingLib.
     store d3 = mark_all (store d) (unsent (map seg_of q)) -> extra d3 = extra d -> libref d3 = libref d ->
     DbInv d3.
   Proof.
-    intros Hd Hc Hst Hex Hlib. pose proof Hd as [Hnd HU Hcoh Hnum Hextra Hlc].
+    intros Hd Hc Hst Hex Hlib. pose proof Hd as [Hnd HU Hcoh Hnum Hextra Hlc Hrt].
     assert (Hq : forall e, In e q -> In e (store d)) by (intros e He; eapply chain_in; eassumption).
     set (g := flag_if (map sid (unsent (map seg_of q)))) in *.
     constructor; rewrite ?Hst, ?Hex, ?Hlib.
@@ -448,6 +453,13 @@ Section MovingLib.
         * clear IHq1'. destruct (chain_top _ _ _ _ _ Hc1) as [Hfp _].
           left. exists (g pe). split; [rewrite l3_find, Hfp; reflexivity|].
           apply g_sent_q. rewrite Heq. apply in_or_app. left. apply in_or_app. right. left. reflexivity.
+    - intros e3 He3 Hp3.
+      destruct (in_mark_all _ _ _ Hnd He3) as (e0 & He0 & ->). fold g in Hp3 |- *.
+      assert (Eg : forall a, eb (g a) = eb a) by (intros a; apply flag_if_eb). rewrite Eg in Hp3.
+      pose proof (Hrt e0 He0 Hp3) as Hs0.
+      destruct (esent (g e0)) eqn:Hs3; [|reflexivity]. exfalso.
+      pose proof (flagged_in_q _ q Hnd Hq e0 He0 Hs0 Hs3) as Hin.
+      exact (chain_parent_nz _ _ _ _ (di_wf _ Hd) (di_lid _ Hd) Hc e0 Hin Hp3).
   Qed.
 
   (* ---------------------------------------------------------------- the triggering step, first half:
@@ -471,7 +483,7 @@ Section MovingLib.
       Forall (fun e => elib e = cursor_lib s1) (evU ++ evRN).
   Proof.
     intros HI Hb Hc HP HC HS.
-    pose proof HI as [Hd Hfin Hflast Hh]. pose proof Hd as [Hnd HU Hcoh Hnum Hextra Hlc].
+    pose proof HI as [Hd Hfin Hflast Hh]. pose proof Hd as [Hnd HU Hcoh Hnum Hextra Hlc Hrt].
     set (en := mkEntry b false) in *. set (q := pP ++ [en]) in *.
     assert (Hq : forall e, In e q -> In e (store (db s1))) by (intros e He; eapply chain_in; eassumption).
     assert (HcP : chain (store (db s1)) (bparent b) (ri (libref (db s1))) pP).
@@ -536,7 +548,7 @@ Section MovingLib.
     store d' = filter (fun e => bnum (eb a) - kept <=? bnum (eb e)) (store d) /\
     chain (store d') x (key a) B.
   Proof.
-    intros Hd Hc. pose proof Hd as [Hnd HU Hcoh Hnum Hextra Hlc]. pose proof (di_wf _ Hd) as Hwf.
+    intros Hd Hc. pose proof Hd as [Hnd HU Hcoh Hnum Hextra Hlc Hrt]. pose proof (di_wf _ Hd) as Hwf.
     assert (Hain : In a (A ++ a :: B)) by (apply in_or_app; right; left; reflexivity).
     assert (Ha : In a (store d)) by (eapply chain_in; eassumption).
     assert (HaU : In (eb a) U) by (apply HU; exact Ha).
@@ -561,6 +573,7 @@ Section MovingLib.
              { apply U_uniq; [exact Hy | apply HU; exact Hpin | rewrite Ey; symmetry; exact Hpk]. }
              subst y. unfold f in Fp. apply N.leb_gt in Fp. lia.
         * right. intros y Hy Ey. specialize (Hlow y Hy Ey). lia.
+      + intros e He Hp. cbn [store] in He. apply filter_In in He as [He _]. apply Hrt; assumption.
     - apply chain_filter; [exact Hnd | eapply chain_suffix; eassumption|].
       intros e He. destruct (chain_split_order _ _ _ _ _ _ Hwf Hc) as [Habove _].
       specialize (Habove e He). unfold f. apply N.leb_le. lia.
@@ -609,7 +622,7 @@ Section MovingLib.
   Proof.
     intros HI Hls Hb Hne.
     pose proof HI as [Hd Hfin Hflast Hh]. rewrite Hls in Hh. destruct Hh as (_ & p & Hc & HS & Hsent).
-    pose proof Hd as [Hnd HU Hcoh Hnum Hextra Hlc].
+    pose proof Hd as [Hnd HU Hcoh Hnum Hextra Hlc Hrt].
     pose proof (di_wf _ Hd) as Hwf. pose proof (di_lid _ Hd) as Hlid. pose proof (di_up _ Hd) as Hup.
     destruct p as [|et p' _] using rev_ind.
     { apply chain_nil_inv in Hc. contradiction. }
@@ -822,21 +835,17 @@ Section MovingLib.
     - apply Hkn; [exact Hb|]. rewrite Hk3. apply in_or_app. right. left. reflexivity.
   Qed.
 
-  Lemma fk_step_old' s b e : in_U (store (db s)) -> In b U -> find (bid b) (store (db s)) = Some e ->
-    wf_store (store (db s)) -> incl_first s b = false ->
+  (* a block that is already stored: nothing happens (a stored root is stored again, unchanged) *)
+  Lemma fk_step_old' s b e : DbInv (db s) -> In b U -> find (bid b) (store (db s)) = Some e ->
+    incl_first s b = false ->
     fk_step cfg s b = (s, [], ROk).
   Proof.
-    intros HU Hb Hf Hwf Hni. destruct (U_id b Hb) as (H1 & H2 & H3).
-    unfold fk_step. destruct (N.eqb_spec (bid b) (bparent b)); [contradiction|].
-    destruct ((bnum b <? rn (libref (db s))) && match last_sent s with Some _ => true | None => false end); [reflexivity|].
-    unfold incl_first in Hni. rewrite Hni.
-    assert (Hsw : exists u r j, (if f_undo (c_filter cfg) && triggers cfg s b
-             then match last_sent s with Some ls => sent_chain_switch_segments (db s) (bid ls) (bparent b) | None => ScssOk [] [] None end
-             else ScssOk [] [] None) = ScssOk u r j).
-    { destruct (f_undo (c_filter cfg) && triggers cfg s b); [|eauto].
-      destruct (last_sent s) as [ls|]; [apply scss_total; exact Hwf | eauto]. }
-    destruct Hsw as (u & r & j & ->).
-    rewrite (add_link_old U U_id U_uniq _ _ _ HU Hb Hf). reflexivity.
+    intros Hd Hb Hf Hni.
+    apply (fk_step_old_w U cfg U_id U_uniq U_up s b e (di_nodup _ Hd) (di_inU _ Hd) Hb Hf).
+    - intros Hp. apply (di_root _ Hd e (proj1 (find_some _ _ _ Hf))).
+      rewrite (stored_is_self U U_uniq _ _ _ (di_inU _ Hd) Hb Hf). exact Hp.
+    - apply (di_lid _ Hd).
+    - exact Hni.
   Qed.
 
   (* the inclusive first delivery: New + Irreversible for the starting LIB block itself *)
@@ -850,7 +859,7 @@ Section MovingLib.
     specialize (Hroot Hci).
     assert (Hf : find (bid b) (store (db s)) = None) by (rewrite Hid; exact Hroot).
     assert (Hk : ~ In (bid b) (keys (store (db s)))) by (apply find_none; exact Hf).
-    destruct (U_id b Hb) as (H1 & H2 & H3).
+    destruct (U_id b Hb) as (H1 & H3).
     unfold fk_step. destruct (N.eqb_spec (bid b) (bparent b)); [contradiction|].
     unfold dropped in Hd. rewrite Els in *. rewrite Hd, Hci, Hflast.
     replace (bid b =? ri r0) with true by (symmetry; apply N.eqb_eq; exact Hid). cbn [andb].
@@ -905,10 +914,10 @@ Section MovingLib.
     { rewrite (fk_step_dropped U cfg U_id s b Hb Hd). apply stepout_quiet; auto. right. exact Hd. }
     destruct (incl_first s b) eqn:Hni.
     { apply step_root; assumption. }
-    pose proof HI as [Hdb Hfin Hflast Hh]. pose proof Hdb as [Hnd HU Hcoh Hnum Hextra Hlc].
+    pose proof HI as [Hdb Hfin Hflast Hh]. pose proof Hdb as [Hnd HU Hcoh Hnum Hextra Hlc Hrt].
     pose proof (di_wf _ Hdb) as Hwf.
     destruct (find (bid b) (store (db s))) as [e|] eqn:Hf.
-    { rewrite (fk_step_old' s b e HU Hb Hf Hwf Hni). apply stepout_quiet; auto.
+    { rewrite (fk_step_old' s b e Hdb Hb Hf Hni). apply stepout_quiet; auto.
       left. apply find_is_some_in. eauto. }
     (* a new block *)
     pose proof (inv_add s Fin S b HI Hb Hf Hni) as HI1.
@@ -924,7 +933,7 @@ Section MovingLib.
       destruct (last_sent s) as [ls|]; [apply scss_total; exact Hwf | eauto]. }
     destruct Hsw as (undos & redos & junc & Hsw).
     rewrite (fk_step_new' s b undos redos junc Hdb Hb Hf Hd Hni Hsw). cbv zeta. fold s1.
-    pose proof HI1 as [Hdb1 _ _ _]. pose proof Hdb1 as [Hnd1 HU1 _ _ _ _].
+    pose proof HI1 as [Hdb1 _ _ _]. pose proof Hdb1 as [Hnd1 HU1 _ _ _ _ _].
     pose proof (di_wf _ Hdb1) as Hwf1.
     change (new_db (db s) b) with (db s1).
     destruct (rs_total (db s1) first Hwf1 (fuel_of (db s1)) (bid b) (bnum b) [] (enough_fuel_of _ _)) as [[longest reach] Hrs].
@@ -971,7 +980,7 @@ Section MovingLib.
         * cbn [rev filter] in Hrun. fold en in Hrun. rewrite Hrun.
           eapply step_finish; eauto; try congruence; try (rewrite map_app, app_assoc, rev_app_distr; discriminate).
           apply map_eq_nil in HmU. subst evU. intros e0 [].
-      + destruct (scss_link (db s) _ (bid hd) (bparent b) pH pP Hwf Hneq HcH HcP0) as (C & R & Uh & j & HP & HH & Hsc).
+      + destruct (scss_link (db s) _ (bid hd) (bparent b) pH pP Hwf (di_lid _ Hdb) Hneq HcH HcP0) as (C & R & Uh & j & HP & HH & Hsc).
         { intros f t e0 Hu He0. exact (tail_disjoint' (db s) pP (bparent b) Hdb HcP0 f t e0 Hu He0). }
         rewrite Hsc in Hsw. injection Hsw as <- <- <-.
         destruct (trigger_first s1 Fin S b pP C R Uh j None HI1 Hb Hc HP) as
